@@ -513,7 +513,9 @@ def check_raw_interpolation(ctx, model):
 
 # ---- token-level constructs: the round trip in the small -------------------------------------------------------------------------------------------
 
-SIMPLE_NT = {'string': ['abc', '1 day', '5', '1.5 hours', '-1 day', "it's", '0.5'], 'quote_string': ['abc', '5'], 'dquote_string': ['abc', 'a b'],
+SIMPLE_NT = {'string': ['abc', '1 day', '5', '1.5 hours', '-1 day', "it's", '0.5',
+                        # content that is more than `<value> <one word>`: several words, quotes, brackets, comment openers - it must stay inside the literal
+                        '1 day 2 hours', '1 day) union select 1 --', "1' day", '1  day', 'x y z', '1 day;'], 'quote_string': ['abc', '5'], 'dquote_string': ['abc', 'a b'],
              'id': ['abc', 'col1'], 'integer': [5, 0], 'float': [1.5, 1e-07, 1e+16, 2.5e+19]}
 WRAP = {'expr': ['SELECT'], 'constant': ['SELECT'], 'identifier': ['SELECT']}
 
